@@ -82,7 +82,7 @@ func c19(seed uint64, n int) {
 	for i := 0; i < n; i++ {
 		r := rng.New(seed*7000003 + uint64(i))
 		name := fmt.Sprintf("c19-%d-%d", seed, i)
-		if err := c19one(r, name, i%6); err != nil {
+		if err := c19one(r, name, i%7); err != nil {
 			emit(map[string]interface{}{"kind": "error", "scenario": name, "err": err.Error()})
 		}
 	}
@@ -201,6 +201,57 @@ func c19one(r *rng.R, name string, which int) error {
 			return err
 		}
 		s.emitC19("ctx-done-before-send", map[string]interface{}{"expect_ok": []int{b.Tid}})
+	case 6: // a renewal and a short request while a long request is outstanding (written, unanswered)
+		a := s.newCaller(tyWrite, 1500*time.Millisecond)
+		if err := s.launch([]*Caller{a}); err != nil {
+			return err
+		}
+		opener := s.newCaller(tyOPN, 10*time.Second)
+		opener.done = make(chan struct{})
+		opener.Code, opener.UID, opener.For = -1, -1, -1
+		idR := p.V.SchedRequestID() + 1
+		t0 := time.Now()
+		var rerr error
+		go func() {
+			defer close(opener.done)
+			rerr = p.SC.Renew(context.Background())
+		}()
+		time.Sleep(20 * time.Millisecond)
+		// a short request issued while the renewal is (or should already be) through
+		b := s.newCaller(tyWrite, 100*time.Millisecond)
+		b.start(p.SC, b.Tid, 0, nil, nil)
+		answered := false
+		for !answered && !b.finished() {
+			if rq, ok := p.Srv.Next(50 * time.Millisecond); ok && rq.Err == nil && markerOf(rq.Req) == b.Tid {
+				s.idOf[b.Tid] = rq.ReqID
+				s.probe[rq.ReqID] = true
+				answered = true
+			}
+		}
+		s.wait(opener, 4*time.Second)
+		renewMS := float64(time.Since(t0).Microseconds()) / 1000
+		opener.mu.Lock()
+		opener.Code = classify(rerr)
+		opener.ID = idR
+		opener.UID = -2 // which frame open() consumed is not observable from outside
+		opener.Elapsed = time.Since(t0)
+		opener.mu.Unlock()
+		s.idOf[opener.Tid] = idR
+		s.probe[idR] = true
+		s.events = append(s.events, Ev{"alloc", opener.Tid, 1, tyOPN}, Ev{"reg", opener.Tid}, Ev{"write", opener.Tid, true},
+			Ev{"frame", idR, tyOPN, 0, opener.Tid}, Ev{"take", opener.Tid}, Ev{"resume"})
+		s.uid++ // the server's own OpenSecureChannelResponse
+		taken[opener.Tid] = true
+		if answered {
+			s.events = append(s.events, Ev{"call", b.Tid, 0, b.Want})
+			if err := s.frame("ok", s.idOf[b.Tid], b.Tid, tyWrite); err != nil {
+				return err
+			}
+		}
+		s.wait(b, 4*time.Second)
+		s.wait(a, 4*time.Second)
+		s.settle(taken)
+		s.emitC19("renewal-while-outstanding", map[string]interface{}{"expect_ok": []int{b.Tid}, "renew_ms": renewMS, "oracle_only": !answered})
 	case 4: // send failure: the TCP write fails
 		b, err := s.healthyCall(taken)
 		if err != nil {
